@@ -481,6 +481,11 @@ def check_C07(tier, seed):
     scns = [vmgen.random_scenario(seed * 1000003 + i) for i in range(2500 if quick else 25000)]
     cases = [c for c in vmrun.run_scenarios(scns) if 'harness_error' not in c]
     engine.judge_cases(rep, cases, devs, what='random program')
+    # every eval call the repository's own tests make, recorded and validated event by event
+    tscns = families.repo_test_evals()
+    rep.notes['repository_test_evals_recorded'] = len(tscns)
+    tcases = [c for c in vmrun.run_scenarios(tscns) if 'harness_error' not in c]
+    engine.judge_cases(rep, tcases, devs, what='eval call of the repository test-suite')
     rep.assumptions += ['programs that leave the specified part of Python semantics (binary float arithmetic, int/int division, '
                         'non-ASCII case mapping, ...) are counted as left-domain and not as validated']
     return rep.finish()
